@@ -49,8 +49,8 @@ EmitStruct(reg, item) ==
       sizecheck |-> IF res.size > 0 THEN res.size ELSE None,
       singleton |-> res.singleton,
       vftacc |-> [has |-> res.vft.has, via |-> res.vft.baseField, ty |-> res.vft.ty],
-      methods |-> SeqMap(Method, SelectSeq(res.afuncs, LAMBDA f : ~IsInternal(f.name)))
-                  \o SeqMap(Method, SelectSeq(res.vft.funcs, LAMBDA f : ~IsInternal(f.name))),
+      methods |-> SeqMap(Method, SelectSeq(res.afuncs, LAMBDA f : ~IsInternalFn(f)))
+                  \o SeqMap(Method, SelectSeq(res.vft.funcs, LAMBDA f : ~IsInternalFn(f))),
       asrefs |-> AsRefs(reg, res)]
 
 EmitEnum(item) ==
